@@ -333,7 +333,7 @@ func TestGenerated(t *testing.T) {
 		cfg.Off = map[string]bool{"retattr-align": true, "freeze-metadata": true}
 		m, feats := gen.Module(rt, cfg)
 		gen.SparseMetadataIDs(rt, m)
-		x := m.TextNoisy(gen.DrawNoise(rt))
+		x := m.TextNoisy(gen.DrawNoiseWithAliases(rt))
 		hx.Eval(1)
 		if checkText(rt, test, "own-generator", x, true) {
 			refs := feats["const/global-address"]+feats["const/blockaddress"]+feats["const/blockaddress-in-global"]+feats["inst/phi"]+feats["md/forward-ref"] > 0
